@@ -34,6 +34,22 @@ Fixpoint is_prefix_ids (a b : list bytes) : bool :=
   | _, [] => false
   end.
 
+(** C16, request side: a Read hands over bytes of one message only - it returns at the end of a
+    message instead of going on to the next one (for which it might have to wait).
+    [ends]: offsets in the delivered stream at which a frame ends. *)
+Fixpoint frame_ends (pos : Z) (frames : list (N * bytes)) : list Z :=
+  match frames with
+  | [] => []
+  | f :: r => let e := pos + 5 + zlen (snd f) in e :: frame_ends e r
+  end.
+Fixpoint reads_stay_in_frames (ends : list Z) (pos : Z) (reads : list V) : bool :=
+  match reads with
+  | [] => true
+  | r :: rest =>
+      let q := pos + zlen (vs (vnth 0 r)) in
+      negb (existsb (fun e => (pos <? e) && (e <? q)) ends) && reads_stay_in_frames ends q rest
+  end.
+
 Definition reader_ok (i o : V) : bool :=
   let cx := rctx_of (vnth 0 i) in
   let ortab := vnth 1 i in
@@ -72,7 +88,7 @@ Definition reader_ok (i o : V) : bool :=
       let ids_ok := is_prefix_ids decodable want &&
                     (soft || forallb (fun x => match x with Some _ => true | None => false end) ids) in
       let complete := Nat.eqb (length ids) (length want) in
-      flags_ok && ids_ok &&
+      flags_ok && ids_ok && reads_stay_in_frames (frame_ends 0 frames) 0 reads &&
       (* C09: a stream cut inside a frame or carrying an illegal flag never ends cleanly *)
       (* (a soft fault or the size limit earlier in the stream may legitimately end it first) *)
       (negb hard || soft || negb clean) &&
